@@ -76,6 +76,40 @@ STRENGTHENED.update({
     "c19-6": "C19 missed it at first; new kind c19.history: one Code run on an input and then on a list of others must give for each what a fresh Code gives (regular-expression programs over 408 subject/pattern/flags triples incl. colliding concatenations)",
     "c19-8": "C19 missed it at first (C18 caught it, 702 cases); new kind c19.modvars: WithVariables names inside aliased / included / transitive modules",
 })
+STRENGTHENED.update({
+    "c01-9": "C01 and C04 missed it at first; a family of recursive calls that look like tail calls was added to both (20 accumulator-passing functions with `$value` parameters whose later arguments read earlier parameters, 20 calls ending a try body / optional / alternative / label / reduce, each followed by something that tells the difference; 5 wrappers)",
+    "c01-11": "C01 and C04 missed it at first; same family as c01-9 (recursive call at the end of a try body, with an error raised behind the call)",
+    "c03-11": "C03 missed it at first; new kind c03.fromjson: 70 texts that are not exactly one JSON value (a complete value followed by `]`, `}`, `,`, ...) and 30 that are, in three calling forms",
+    "c04-11": "C04 missed it at first because errors were compared by class only; internal errors are now separated into invalid-path errors and type errors when both sides are gojq (uncaught and caught-and-emitted)",
+    "c05-9": "C05 missed it at first (C06's variables mode caught it); new kind c05.values: Run is given 1..5 variable values as a spread slice with four sentinels behind its length, four runs; the slice is compared after every Next and every run",
+    "c05-10": "C05 missed it at first; 44 programs that put containers with 3..300 members into error messages, previews and texts were added to the rerun-equality workload",
+    "c06-9": "C06 missed it at first (C05 caught it); folds whose accumulator starts from an empty value and is then extended (`[{}, LITERAL, .] | add`, reduce, `+`, `*`) were added to the concurrent workload",
+    "c06-10": "needs a module loader: C08 catches it on the command line (`fatal error: all goroutines are asleep - deadlock!` for failing-then-succeeding modulemeta calls, added to c08.command); in the library a deadlocked Next is a hang, which the harness classifies as inconclusive by design",
+    "c06-11": "C06 missed it at first (C05 caught it); one pattern under rejected and accepted flag sets, the rejected one first, was added to the concurrent workload",
+    "c07-11": "C07 missed it at first; the stale-handle check now also closes the context only after the iterator has ended (the usual `defer cancel()`) and advances it again",
+    "c08-9": "C08 missed it at first; something that cannot be compiled (53 forms: undefined function / variable / label, bad arity, after or before something that can) is now put at each of the 70 query positions of the grammar",
+    "c08-10": "C08 missed it at first; 26 failing operations are now evaluated more than once in one run (5 repetition shapes), so that what a Code keeps from the first failure meets the second",
+    "c09-9": "needs two goroutines: new kind c06.parse (8 goroutines Parse, print and compile 8 different texts with long escaped literals 40 times each) catches it under C06; C09 is single-threaded by design",
+    "c09-10": "C09 missed it at first; module / import / include metadata with empty-string keys at every nesting depth was added to the surface pool",
+    "c09-11": "C09 missed it at first; the exhaustive operator pairs (and the chaining triples) are now also parsed inside 30 bracketing positions (object values, computed keys, array, index, slice boundaries, arguments, interpolation, parts of if/reduce/foreach/try, pattern keys, definitions)",
+    "c10-10": "filed under C10 by its author; it needs --yaml-input: the YAML-input kind of C12 (c12.yamlin) catches it",
+    "c10-11": "C10 missed it at first (C03 caught it); a 12-fold equality battery (contains, inside, index, unique, group_by, array difference, IN, bsearch, min == max) over the boundary integers in every representation was added to c10.arith",
+    "c11-9": "C11 missed it at first; integers beyond the range of a double (10^320, both signs, as *big.Int and as literals) were added to the universe",
+    "c11-11": "C11 missed it at first; `_by` functions with key filters that yield a varying number of outputs per element (`.a[]?` over arrays of 0..3 values, objects, scalars, missing) were added, with the key array as the specification's key",
+    "c12-11": "C12 missed it at first; new kind c12.streams: 2..6 inputs printing 0..3 values each under 9 kinds of output mode (all 81 shapes of which of 4 inputs print 0, 1 or 2 values under --yaml-output), read back by an independent reader (YAML through --yaml-input)",
+    "c13-9": "C13 missed it at first; strings whose byte length lies around fixed buffer and block sizes (62..100001 bytes, one- to four-byte characters) under every string law",
+    "c13-10": "filed under C13 by its author; it needs --yaml-input: C12's YAML-input kind catches it",
+    "c13-11": "C13 missed it at first; new law: setpath(p; x) | getpath(p) == x for x taken from the value at p itself (every prefix and suffix slice, every member)",
+    "c14-10": "C14 missed it at first; string slices with fractional and negative fractional boundaries (12 x 9 boundary pairs per subject) against the same slice of the code points",
+    "c15-11": "filed under C15 by its author; the --stream check of C16 catches it",
+    "c16-11": "C16 missed it at first; new kind c16.special: /dev/stdin, a named pipe, a symbolic link and /dev/null among the input files in 7 modes",
+    "c17-10": "C17 missed it at first; c17.query now puts white space and line breaks in front of the query argument and file. The author's aside about the same spot became fix D43; patch and demonstration were ported to the fixed tree (see notes.md)",
+    "c18-11": "C18 missed it at first; import metadata now sometimes carries decoy keys named like the fields modulemeta computes (as, relpath, is_data)",
+    "c19-9": "C19 missed it at first; iterator functions that fail the usual way (`gojq.NewIter(err)`: an iterator over one error) were added, and the iterator is advanced three more times after the first uncaught error (any panic counts)",
+    "c19-11": "C19 missed it at first (C05 caught it); the history kind now also runs the many-member-container programs of c05-10",
+    "c20-9": "C20 missed it at first; loop turns that pass through the last or only member of a container before going on without backtracking (`[. + 1][]`, `{a: ...}[]`, split, to_entries, keys) in until / tail recursion / recurse / reduce",
+    "c20-10": "C20 missed it at first, twice: long recurse/2 chains were added, and then the quadratic time of the seeded definition exhausted the instruction budget (inconclusive); the footprint is now also read at the point where the budget ends a run and compared with an early checkpoint",
+})
 # changes that were confirmed but are not violations of the property as given (both behaviours are accepted by the checks)
 NOT_A_VIOLATION = {
     "c15-6": "after a malformed document in a file that is not the last one, the unchanged command goes on with the next file, the changed one stops. C16 says of a malformed document 'every complete value before it, then one error, then end of input' and C15 speaks of runtime errors of the query only; neither property decides whether the files named later are still read, so the checks accept both (DESIGN 9.2, 'not defects')",
